@@ -71,6 +71,25 @@ SPECS = [
         ]}},
         serves=['C13', 'C10'],
     ),
+    dict(
+        id='S-OnError-two-streams',
+        # one on-error element inside a translation block (sub-stream), then one in ordinary output:
+        # each takes its mark from, and cuts, the stream IT writes to
+        text='A<p i18n:translate="">t<b tal:on-error="e11">%s</b>u</p><div tal:on-error="e1">%s</div>B' % (H1, hole(2)),
+        own_names=['error'],
+        ensures=[
+            "translate_calls() == 1",
+            "raised('h2') or S() == S0() + 'A<p>' + piece(translate_result(0)) + '</p><div>' + out(2) + '</div>B'",
+            "not raised('h2') or S() == S0() + 'A<p>' + piece(translate_result(0)) + '</p><div>' "
+            "+ ('' if quoted(val(1), None, '\\xad', None, None) is None "
+            "   else piece(quoted(val(1), None, '\\xad', None, None))) + '</div>B'",
+        ],
+        raises={'*': {'ensures': [
+            "(raised('h1') and not exc_is_exception()) or (raised('h2') and not exc_is_exception()) "
+            "or raised('e11') or raised('e1')",
+        ]}},
+        serves=['C13'], no_fresh=True,
+    ),
 ]
 
 CONTRACTS = schema_contracts(SPECS)
